@@ -218,6 +218,27 @@ def run(ck):
                       "the announced length is computed with %s instead of the byte/element length of what is written next" % (other or "something other than len()"), f.loc(bi))
     ck.floor("DEFUSE", "length prefixes written by the JSON->bytes direction", nlp, 7)
 
+    # arbitrary-precision numbers (ULeb128 / ILeb128 with up to `constraint` groups of 7 bits) are accumulated in arbitrary
+    # precision on both sides: a machine integer shifted by a loop-dependent amount loses the groups beyond its width
+    nleb = 0
+    for p in sorted(c.paths()):
+        if not re.search(r"schema_json::(de)?serial_big(u)?int(::\{closure#\d+\})*$", p):
+            continue
+        for b in c.get_all(p):
+            f = Fn(b)
+            nleb += 1
+            narrow = []
+            for bi in sorted(f.reachable()):
+                for st in f.stmts(bi):
+                    rv = st.get("rv", {})
+                    if rv.get("k") == "bin" and rv["op"].startswith("Shl") and op_const(rv["b"]) is None:
+                        narrow.append(bi)
+            big = f.calls(r"ops::(Shl|ShlAssign|Shr|ShrAssign|AddAssign|SubAssign|BitAnd|Rem|Div|DivAssign)[:<].*$|num_bigint|BigU?[Ii]nt")
+            ck.ob("DEFUSE", p, "leb128-accumulated-in-arbitrary-precision", not narrow and len(big) >= 1,
+                  "groups are combined with big-integer operations only" if not narrow and big else
+                  "7-bit groups are shifted into a fixed-width integer by a loop-dependent amount: values beyond its width lose their high groups although the schema admits them", f.loc(narrow[0]) if narrow else f.loc())
+    ck.floor("DEFUSE", "LEB128 big-integer codecs", nleb, 4)
+
     # totality on truncated input: inside a loop driven by a declared length, a failed read ends the loop. A loop that
     # records the failure and goes on performs `length` iterations (each allocating an error) on an input that only holds
     # the length prefix.
